@@ -6,6 +6,9 @@ use std::hash::{BuildHasher, Hasher};
 use std::sync::Arc;
 
 use fnv::FnvHasher;
+#[cfg(prometheus_verif)]
+use crate::verif_sync::RwLock;
+#[cfg(not(prometheus_verif))]
 use parking_lot::RwLock;
 
 use crate::desc::{Desc, Describer};
